@@ -451,6 +451,19 @@ APush ==
      Step("push", <<x>>, [v EXCEPT !.pushed = Append(v.pushed, x), !.res = "ok"],
           [Dirty(g) EXCEPT !.vals = Append(g.vals, x), !.nxt = x + 1])
 
+\* checked_push_at(index, value): refused unless index = len (traits/writable.rs)
+ACheckedPush ==
+  /\ "cpush" \in Ops /\ Alive /\ GLen < MaxLen
+  /\ \E idx \in {GLen, GLen + 1} \cup (IF GLen > 0 THEN {GLen - 1} ELSE {}) :
+       LET x == g.nxt IN
+       IF idx = VLen(v)
+       THEN Step("cpush", <<idx, x>>, [v EXCEPT !.pushed = Append(v.pushed, x), !.res = "ok"],
+                 IF idx = GLen THEN [Dirty(g) EXCEPT !.vals = Append(g.vals, x), !.nxt = x + 1]
+                 ELSE [g EXCEPT !.must = "err", !.nxt = x + 1])
+       ELSE Step("cpush", <<idx, x>>, [v EXCEPT !.res = "err"],
+                 IF idx = GLen THEN [Dirty(g) EXCEPT !.vals = Append(g.vals, x), !.nxt = x + 1]
+                 ELSE [g EXCEPT !.must = "err", !.nxt = x + 1])
+
 ATruncate ==
   /\ "truncate" \in Ops /\ Alive
   /\ \E idx \in 0..MaxLen :
@@ -575,7 +588,7 @@ AFaultCorrupt ==
           [v EXCEPT !.changes = (v.changes \ {TheRecord(v)}) \cup {[TheRecord(v) EXCEPT !.bad = TRUE]}, !.res = "ok"],
           [g EXCEPT !.avail = 0, !.faulted = TRUE, !.must = "ok"])
 
-Next == \/ APush \/ ATruncate \/ AUpdate \/ ADelete \/ AFill \/ AWrite \/ AFlushReimport \/ AReset
+Next == \/ APush \/ ACheckedPush \/ ATruncate \/ AUpdate \/ ADelete \/ AFill \/ AWrite \/ AFlushReimport \/ AReset
         \/ ACommit \/ ARollback \/ ARollbackBefore \/ AFaultDelete \/ AFaultCorrupt
 
 Spec == Init /\ [][Next]_vars
